@@ -40,6 +40,25 @@ func c07(e *Env) {
 	for _, n := range ga.Select(a.isSlotSend) {
 		ob1.Check(mxBit != 0 && la.must[n]&mxBit != 0, ga.Where(n), "must-held lockset = {"+strings.Join(la.held(la.must[n]), ",")+"}", "slot send with must-held lockset {"+strings.Join(la.held(la.must[n]), ",")+"}: the slot mutex is not held on every path")
 	}
+	ob1b := r.Ob("R1", "acquire:mutex-spans-loop", "the slot mutex is held across the whole token loop (at the loop test on every iteration), so a task's tokens are deposited atomically with respect to other acquirers: two multi-core tasks can never each hold a part of their tokens")
+	for _, n := range ga.Select(a.isSlotSend) {
+		l := core.InnermostLoop(n.Instr)
+		if l == nil {
+			ob1b.Fail(ga.Where(n), "the slot send is not inside a token loop")
+			continue
+		}
+		_, iff := core.HeaderTest(l)
+		found := false
+		for _, m := range ga.Nodes {
+			if iff != nil && m.Instr == ssa.Instruction(iff) && m.Ctx == n.Ctx {
+				found = true
+				ob1b.Check(mxBit != 0 && la.must[m]&mxBit != 0, ga.Where(m), "mutex held at the loop test", "at the token loop's test the slot mutex is not certainly held (it is released between two sends): with CoresPerTask >= 2 two tasks can each deposit a part of their tokens and block each other forever")
+			}
+		}
+		if !found {
+			ob1b.Unknown(ga.Where(n), "loop test of the token loop not found")
+		}
+	}
 	ob3 := r.Ob("R3", "acquire:Lock→Unlock", "every Lock of the slot mutex is followed by its Unlock on every path on which acquire returns")
 	afterUnlock := ga.BackwardMust(func(n *core.Node) core.Bits {
 		if lockOp(n) == "unlock" && isSlotMx(n) {
